@@ -16,10 +16,10 @@ def gen_cases(tier, seed, ctx):
     cases = []
     def wr(name, b):
         return FG.write(ctx, name, b)
-    def add_copy(kind, tgt_b, flags, srcs):
+    def add_copy(kind, tgt_b, flags, srcs, hist=None):
         i = len(cases)
         tp = wr('t%d.zck' % i, tgt_b); bp = wr('t%d.before' % i, tgt_b)
-        sps = [wr('t%d.s%d.zck' % (i, j), s) for j, s in enumerate(srcs)]
+        sps = [wr('t%d.s%d.zck' % (i, j), s) + ('@' + hist if hist else '') for j, s in enumerate(srcs)]
         cases.append(E.Case('k%d' % i, 'COPY %s %s %s %s' % (tp, flags, ','.join(sps), bp), dict(kind=kind)))
     def add_match(kind, src_b, tgt_b, flags):
         i = len(cases)
@@ -44,6 +44,7 @@ def gen_cases(tier, seed, ctx):
                     add_copy('two-sources/' + tname, tb, '-', [bA, bB])
                     add_copy('two-sources-rev/' + tname, tb, '-', [bB, bA])
                     add_copy('repeat/' + tname, tb, '-', [bA, bA])
+                    add_copy('marked-src/' + tname, tb, '-', [bA], hist='1' * len(A.chunks))
                 # some chunks already valid (marked so although the bytes are zero: must be left alone)
                 for bits in itertools.product('01', repeat=nB):
                     if rnd.random() < (0.25 if tier == 'quick' else 1.0):
@@ -53,6 +54,10 @@ def gen_cases(tier, seed, ctx):
                 for _ in range(6 if tier == 'quick' else 40):
                     m = bytearray(bA); pos = rnd.randrange(offA, len(bA)); m[pos] ^= 0x40
                     add_copy('corrupt-src', hdr + bytes(body_len), '-', [bytes(m)])
+                    # the source context has a history: its chunks were marked (zck_find_matching_chunks against a third file marks
+                    # by checksum without reading) or it went through a scan; the copy must still verify what it copies
+                    h = rnd.choice(['1' * len(A.chunks), ''.join(rnd.choice('01') for _ in A.chunks), 'v', 'f'])
+                    add_copy('corrupt-src/marked-src', hdr + bytes(body_len), '-', [bytes(m)], hist=h)
                 cuts = {offA, len(bA) - 1}
                 acc = offA
                 for c in A.chunks:
@@ -93,7 +98,7 @@ def nontrivial(r):
 
 def run(tier, seed, replay=None):
     rule = ("COPY = zck_copy_chunks from one or two sources (both orders, repeated) into targets that are zeroed / garbage / header-only / "
-            "complete, with validity either scanned or pre-marked (all 2^n markings in thorough); sources intact (old version sharing chunks, "
+            "complete, with validity either scanned or pre-marked (all 2^n markings in thorough); sources intact (old version sharing chunks, source context freshly opened or with its chunks already marked / scanned, "
             "duplicate chunks), single-bit corrupted, truncated at every chunk boundary +-1, mis-indexed, with a differing declared size, "
             "another dictionary or another chunk hash type; none/zstd x dictionary x hash types x uncompressed-source flag, incl. 40 kB "
             "chunks (several buffer pieces).  MATCH = zck_find_matching_chunks incl. matching by uncompressed checksum across compression types")
